@@ -145,6 +145,11 @@ var solvers = []solverSpec{
 	{"cvc5", func(file string, t int) []string {
 		return []string{"cvc5", "--incremental", "--fp-exp", fmt.Sprintf("--tlimit=%d", t*1000), file}
 	}},
+	// the same solver with enumerative quantifier instantiation: decides quantified
+	// goals on which E-matching alone answers unknown and z3 loops on the recursive axioms
+	{"cvc5-enum", func(file string, t int) []string {
+		return []string{"cvc5", "--incremental", "--fp-exp", "--enum-inst", fmt.Sprintf("--tlimit=%d", t*1000), file}
+	}},
 }
 
 func runSolver(parent context.Context, sp solverSpec, file string, timeoutS int) (status string, out string, secs float64) {
